@@ -20,6 +20,9 @@ type Stream struct {
 	net.Conn
 	mu     sync.Mutex
 	closed int
+	// OnClose, if set, runs inside Close before the connection is closed (schedule control:
+	// "something happens while the underlying stream is being closed")
+	OnClose func()
 }
 
 // NewStreamPair returns two connected fake streams.
@@ -32,7 +35,12 @@ func NewStreamPair() (*Stream, *Stream) {
 func (s *Stream) Close() error {
 	s.mu.Lock()
 	s.closed++
+	cb := s.OnClose
+	first := s.closed == 1
 	s.mu.Unlock()
+	if cb != nil && first {
+		cb()
+	}
 	return s.Conn.Close()
 }
 
